@@ -25,7 +25,7 @@ CHECKS = {
    note="as C09",
    tech="deterministic discrete-event simulation with network fault injection; reference-model oracle; tape shrinking"),
  "C11": dict(cat="exploration", engine="des-tcp", ref="4 C11",
-   text="seeded deterministic simulation of many connections (FIN, RST, stalled, re-opened 4-tuples) with network faults, backward clock jumps, closing and non-closing age-based flushes, page limits and a final flush-all against both real assemblers; after every event the lifecycle (completion exactly once, no data after it), leak (pool and page cache empty after flush-all), page-limit (out-of-order pages counted by walking the queues, also in runs whose streams keep bytes) and age-flush invariants (flushes with equal, different and absent data/closing cut-offs) are audited; a few runs per thousand hold over 1024 connections and buffered pages at once so that pool and page cache grow beyond their first allocation.",
+   text="seeded deterministic simulation of many connections (FIN, RST, stalled, re-opened 4-tuples) with network faults, backward clock jumps, closing and non-closing age-based flushes, page limits and a final flush-all against both real assemblers; after every event the lifecycle (completion exactly once, no data after it), leak (pool and page cache empty after flush-all), page-limit (out-of-order pages counted by walking the queues, also in runs whose streams keep bytes) and age-flush invariants (flushes with equal, different and absent data/closing cut-offs) are audited; a closing flush must not complete a stream whose connection received a packet at or after the closing cut-off; both page limits may be set at once; a few runs per thousand hold over 1024 connections and buffered pages at once so that pool and page cache grow beyond their first allocation, and 2.5 % put small buffered runs in front of multi-page segments under a limit (the shape that exposed the page-limit drift repaired in repo 6e06aa5).",
    note="trusted: harness model; pages in use and pool size are read through verif-tagged accessors; pages in use, queued and kept pages are read through verif-tagged accessors that walk the lists",
    tech="deterministic discrete-event simulation with fault injection; invariant audit after every event"),
  "C13": dict(cat="exploration", engine="des-defrag", ref="4 C13",
@@ -45,7 +45,7 @@ CHECKS = {
    note="trusted: harness actors and oracle; Go's select among ready cases is not owned (the packet in flight at cancellation is optional in the oracle); the data source is a stub, decoding uses gopacket.DecodePayload",
    tech="deterministic simulation in a synctest bubble with gated actors, scripted source faults (timeouts, transient and terminal errors), cancellation points and simulated clock"),
  "C20": dict(cat="exploration", engine="bubble", ref="4 C20 and 9.1",
-   text="(unit reader-sweep additionally enumerates the crash points: for one seeded small script, read-size sequence over {1,2,64} and schedule, Close is placed at EVERY consumer step, each placement in a fresh bubble; unit reader-asm puts the real tcpassembly.Assembler on the assembler side.) the real ReaderStream runs between an assembler-side actor (seeded delivery script with empty slices, skips and completion; batch memory scribbled over after each call returns) and a consumer actor (seeded read sizes, Close at a seeded point, double Close) inside a synctest bubble; the controller decides who moves; oracles: bytes read are exactly the bytes delivered, one DataLost per gap when asked, EOF for ever after completion or Close, both sides run to completion (no deadlock, no panic).",
+   text="(unit reader-asm puts the real tcpassembly.Assembler on the assembler side and additionally demands that the stream is completed in the call that handed over the batch whose last element carries End; the consumer may finish with tcpreader.DiscardBytesToEOF; unit reader-sweep additionally enumerates the crash points: for one seeded small script, read-size sequence over {1,2,64} and schedule, Close is placed at EVERY consumer step, each placement in a fresh bubble; ) the real ReaderStream runs between an assembler-side actor (seeded delivery script with empty slices, skips and completion; batch memory scribbled over after each call returns) and a consumer actor (seeded read sizes, Close at a seeded point, double Close) inside a synctest bubble; the controller decides who moves; oracles: bytes read are exactly the bytes delivered, one DataLost per gap when asked, EOF for ever after completion or Close, both sides run to completion (no deadlock, no panic).",
    note="trusted: harness actors and the element-by-element read model; single consumer goroutine",
    tech="deterministic simulation in a synctest bubble with gated actors; close-point and read-size fault injection; deadlock detection by durable blocking"),
  "C02": dict(cat="exploration", engine="coop", ref="4 C02",
@@ -57,7 +57,7 @@ CHECKS = {
    note="trusted: as C02; which pool block a decode gets is decided by sync.Pool (per-P caches, random drops under -race) and is not owned, verdicts do not depend on it",
    tech="deterministic cooperative scheduling of real goroutines with a race-detector-invisible hand-off; ownership/aliasing oracle after every step"),
  "C12": dict(cat="exploration", engine="coop", ref="4 C12",
-   text="2-3 assembler goroutines plus an optional flusher share one real StreamPool (both packages) under the cooperative scheduler: exactly one goroutine runs, each parks at every API call boundary, every stream callback, in front of every lock acquisition and behind every lock release of the package (hand-placed verif-tagged hooks plus an instrumented scratch copy of the repository in which cmd/instrument puts a verifhook call in front of every x.Lock()/x.RLock(), behind every x.Unlock()/x.RUnlock() statement and in front of every sync/atomic operation, so that locks a change adds or moves are covered too; the released worker tries the lock first so blocked workers are known and deadlock is a verdict; a read-lock attempt counts as blocked while another worker's write attempt on the same RWMutex is waiting, as in sync.RWMutex), and the next runner is drawn from the tape (random pre-emption, PCT-style priorities or injected long stalls, chosen per run). The merged history is checked for panics, deadlock, a single live stream per connection, non-overlapping callbacks, the in-order delivery model for directions fed by one assembler (including completeness after the final flush-all when nothing is lost and no flush closes), cross-stream deliveries and exactly-once completion; connections closed by their FINs are re-opened on the same 4-tuple, behind a barrier in ordered runs and unordered in split runs; -race builds of both packages run the same simulation with the hand-off hidden from the race detector.",
+   text="2-3 assembler goroutines plus an optional flusher share one real StreamPool (both packages) under the cooperative scheduler: exactly one goroutine runs, each parks at every API call boundary, every stream callback, in front of every lock acquisition and behind every lock release of the package (hand-placed verif-tagged hooks plus an instrumented scratch copy of the repository in which cmd/instrument puts a verifhook call in front of every x.Lock()/x.RLock(), behind every x.Unlock()/x.RUnlock() statement and in front of every sync/atomic operation, so that locks a change adds or moves are covered too; the released worker tries the lock first so blocked workers are known and deadlock is a verdict; a read-lock attempt counts as blocked while another worker's write attempt on the same RWMutex is waiting, as in sync.RWMutex), and the next runner is drawn from the tape (random pre-emption, PCT-style priorities or injected long stalls, chosen per run). The merged history is checked for panics, deadlock, a single live stream per connection, non-overlapping callbacks, the in-order delivery model for directions fed by one assembler (including completeness after the final flush-all when nothing is lost and no flush closes), cross-stream deliveries and exactly-once completion; connections closed by their FINs are re-opened on the same 4-tuple, behind a barrier in ordered runs and unordered in split runs or under a closing flusher; per worker the connections' packets are interleaved in a drawn order in half of the runs; assemblers may join a pool already in use; a worker may call StreamPool.Dump concurrently; -race builds of both packages run the same simulation with the hand-off hidden from the race detector.",
    note="trusted: scheduler, hooks (add-only lines in front of lock acquisitions), offline history checker; code between two yield points runs atomically; the race detector keeps a bounded history per word",
    tech="deterministic cooperative scheduling of real goroutines with lock-aware yield hooks and a race-detector-invisible hand-off; offline history oracle"),
 }
